@@ -65,6 +65,15 @@ CLAIMED = {
             "presence, part sizes, thumb-at-top, monotonicity and child width.",
             "Trusted: TLC, the probe widgets and canvas projection in vf/props/c20.py.",
             "DESIGN.md §4 C20"),
+    "C10": ("TLA+ reference editor EditOps.tla (insert/delete/move by character, display-row moves with preferred column, home/end, click) "
+            "model-checked by TLC (Edit.tla: every key sequence within bounds; laws); TLC trace validation (EditTrace.tla) of key/click sequences "
+            "executed on real Edit widgets, with the display rows taken from the layout the widget itself reports",
+            "TLC explores every key sequence of the reference editor within bounds (offset range, cursor-on-character, no-change laws) and "
+            "judges every key of every recorded sequence on the real Edit (exhaustive short sequences on small configurations, random sequences "
+            "over caption/text/width/wrap/align/multiline/allow_tab/str|bytes) for text, offset, handled/unhandled, cursor cell, rendered cursor, "
+            "signal order and contents; IntEdit/IntegerEdit/FloatEdit for the alphabet invariant.",
+            "Trusted: TLC, stops_of() (cursor stops derived from the widget's own layout; the layout contract is C03), vf/term.char_width.",
+            "DESIGN.md §4 C10"),
 }
 
 NOT_APPLICABLE = {}
